@@ -7,8 +7,6 @@ package main
 import (
 	"encoding/json"
 	"fmt"
-	"os"
-	"runtime/pprof"
 
 	"verifharness/vlib"
 )
@@ -28,12 +26,6 @@ type caseDesc struct {
 func main() {
 	o := vlib.ParseFlags()
 	vlib.Quiet()
-	if pf := os.Getenv("C05_PROF"); pf != "" { // development aid
-		if f, err := os.Create(pf); err == nil {
-			_ = pprof.StartCPUProfile(f)
-			defer pprof.StopCPUProfile()
-		}
-	}
 	w := vlib.NewWriter(o.Out, "C05_run", 40)
 	var samples []interface{}
 
